@@ -54,6 +54,12 @@ def run(chk):
             if r.get("ref") is not None:
                 todo.append(dict(by_id[r["id"]], pickle=r.get("pickle")))
         foreign = {r["id"]: r for r in identity.run_foreign(todo, rd)}
+        # a second fresh interpreter with yet another string hash seed (an iteration-order dependence can coincide for
+        # one pair of seeds); rebuilds only
+        for r in identity.run_foreign([dict(t, pickle=None) for t in todo], rd, hashseed="17"):
+            for o in r.get("others", []):
+                o["how"] += "(seed-17)"
+            foreign.setdefault(r["id"], {"others": []})["others"] += r.get("others", [])
         evs = []
         for r in local:
             if r.get("ref") is None:
